@@ -111,15 +111,39 @@ example : "U" ∉ unusedCalls exProg exP ∧
     unusedCalls { exProg with callables := [exS, exT, { exP with ret := [], retain := [] }] }
       { exP with ret := [], retain := [] } = ["V"] := by decide
 
-/-- **fixpoint_terminates.**  Every iteration of the removal loop of `Refactor`
-(`removeUnusedCalls` / `removeUnusedOutputs` alternated until nothing changes)
-that reports a change strictly decreases the number of calls + outputs +
-inputs; hence the loop, run with `measure p + 1` iterations of fuel, stops at a
-program on which a further iteration changes nothing. -/
-theorem fixpoint_terminates (p0 p : Program) (calls : Bool) (tops : List String) :
+/-- **fixpoint_terminates.**  The removal loop of `Refactor` (`removeUnusedCalls`
+/ `removeUnusedOutputs` alternated until nothing changes), as run by
+`removeUnused` with `measure p + 1` iterations of fuel, stops at a program on
+which a further iteration changes nothing; and an iteration that reports a
+change strictly decreases the number of calls + outputs + inputs. -/
+theorem fixpoint_terminates (p : Program) (calls : Bool) (tops : List String) :
+    ((removeStep p calls tops p).2 = true → measure (removeStep p calls tops p).1 < measure p)
+    ∧ (removeStep p calls tops (removeUnused calls tops p)).2 = false := by
+  exact Proofs.Refactor.fixpoint_terminates_self p calls tops
+
+/-- The same for *every* iteration of the loop, relative to the loop invariant
+`Agree p0 p` (every name that was a pipeline when the program was compiled,
+`p0`, is still a pipeline in the current program `p`; it holds initially and
+every pass preserves names and kinds). -/
+theorem fixpoint_step_decreases (p0 p : Program) (calls : Bool) (tops : List String)
+    (hag : tops.isEmpty = true ∨ Proofs.Refactor.Agree p0 p) :
     ((removeStep p0 calls tops p).2 = true → measure (removeStep p0 calls tops p).1 < measure p)
     ∧ (removeStep p0 calls tops (removeLoop p0 calls tops (measure p + 1) p)).2 = false := by
-  exact Proofs.Refactor.fixpoint_terminates p0 p calls tops
+  exact Proofs.Refactor.fixpoint_terminates p0 p calls tops hag
+
+/-- Negative witness for dropping the invariant: if the compile-time tables
+(`p0`) say `C` is a pipeline but the current program has a *stage* `C`, an
+iteration reports a change without changing anything. -/
+theorem fixpoint_needs_invariant :
+    let callC : Call := ⟨"C", "C", "", [], []⟩
+    let callD : Call := ⟨"D", "D", "", [], []⟩
+    let T : Callable := ⟨true, "T", false, [], [], [], [callC], [], []⟩
+    let C0 : Callable := ⟨true, "C", false, [], [("o", false)], [], [callD], [⟨"o", .lit "1"⟩], []⟩
+    let D : Callable := ⟨true, "D", false, [], [], [], [], [], []⟩
+    let Cs : Callable := ⟨false, "C", false, [], [("o", false)], [], [], [], []⟩
+    let P0 : Program := ⟨[T, C0, D], none⟩
+    let P : Program := ⟨[T, Cs, D], none⟩
+    (removeStep P0 false ["T"] P).2 = true ∧ (removeStep P0 false ["T"] P).1 = P := by decide
 
 example : (removeStep exProg true ["P"] exProg).2 = false := by decide
 
